@@ -57,6 +57,34 @@ def expr_closure(cfg: CFG, at: int, expr: ast.AST, max_steps: int = 200) -> Tupl
     return names, exprs
 
 
+def param_closure(cfg: CFG, at: int, expr: ast.AST, max_steps: int = 400) -> Set[str]:
+    """Parameters whose *incoming* value an expression transitively depends on (a parameter re-bound before use does not count)."""
+    out: Set[str] = set()
+    seen_defs = set()
+    todo: List[Tuple[int, ast.AST]] = [(at, expr)]
+    steps = 0
+    while todo and steps < max_steps:
+        steps += 1
+        node, e = todo.pop()
+        bound = _comp_bound(e)
+        for nm in loads_in(e):
+            if nm.id in bound:
+                continue
+            for d in cfg.reaching(node, nm.id):
+                if id(d) in seen_defs:
+                    continue
+                seen_defs.add(id(d))
+                if d.kind == "param":
+                    out.add(d.name)
+                elif d.value is not None:
+                    todo.append((d.node, d.value))
+                elif d.stmt is not None and d.kind in ("for", "with", "unpack", "aug"):
+                    src = getattr(d.stmt, "iter", None) or getattr(d.stmt, "value", None)
+                    if src is not None:
+                        todo.append((d.node, src))
+    return out
+
+
 def derives_from(cfg: CFG, at: int, expr: ast.AST, sources: Iterable[str]) -> bool:
     names, _ = expr_closure(cfg, at, expr)
     return bool(names & set(sources))
